@@ -1245,6 +1245,10 @@ def run_sampling_case(ctx, case):
                 r = sf(x, **kwargs)
                 if isinstance(r, np.ndarray):
                     raise AssertionError('single point returned an array of shape {}'.format(r.shape))
+                want_t = complex if dt.startswith('complex') else float
+                if type(r) is not want_t:
+                    raise AssertionError('single point returned {} instead of {}'.format(
+                        type(r).__name__, want_t.__name__))
                 vals.append(r)
             return np.array(vals, dtype=dt)
         raise KeyError(conv)
@@ -1312,13 +1316,33 @@ def run_vector_valued(ctx):
         funcs = [make_callable(cases[0]), float(const), make_callable(cases[1])]
         exp = [[ctok(peval(polys[0], pt)) for pt in pts], [ctok((const, Fr(0)))] * len(pts),
                [ctok(peval(polys[1], pt)) for pt in pts]]
-        for conv in ('mesh', 'mesh+out'):
-            key = 'sampling vector-valued array of callables d={} :: input={}'.format(d, conv)
+        f0, f2 = funcs[0], funcs[2]
+
+        def tuple_func(x):
+            # one function returning a tuple of components (broadcasting, a constant)
+            return (f0(x), float(const), f2(x))
+        allpts = np.array([[float(t) for t in pt] for pt in pts]).T.reshape(d, len(pts))
+        for conv in ('mesh', 'mesh+out', 'tuple-mesh', 'tuple-array', 'tuple-point', 'point'):
+            key = 'sampling vector-valued {} d={} :: input={}'.format(
+                'function returning a tuple' if conv.startswith('tuple') else 'array of callables', d, conv)
             rc = dict(kind='vector', d=d, conv=conv)
             try:
-                sf = sampling_function(funcs, space.domain)
-                if conv == 'mesh':
+                if conv.startswith('tuple'):
+                    sf = sampling_function(tuple_func, space.domain, out_dtype=(float, (3,)))
+                else:
+                    sf = sampling_function(funcs, space.domain)
+                if conv in ('mesh', 'tuple-mesh'):
                     r = point_collocation(sf, space.meshgrid)
+                elif conv == 'tuple-array':
+                    r = sf(allpts)
+                elif conv in ('tuple-point', 'point'):
+                    cols = []
+                    for pt in pts:
+                        v = sf(float(pt[0]) if d == 1 else [float(t) for t in pt])
+                        if np.shape(v) != (3,):
+                            raise AssertionError('single point gave shape {}'.format(np.shape(v)))
+                        cols.append(np.asarray(v, dtype=float))
+                    r = np.array(cols).T
                 else:
                     r = np.full((3,) + space.shape, np.nan)
                     point_collocation(sf, space.meshgrid, out=r)
@@ -1503,7 +1527,107 @@ def run_dispatch(ctx, with_model=True):
                          'signature is {}'.format(written))
 
 
+def run_bounds_check(ctx):
+    """bounds_check: points outside the domain are refused unless bounds_check=False, in which
+    case the callable's values are returned there as well."""
+    from odl.discr.discr_utils import sampling_function
+    import odl
+    for d in (1, 2):
+        dom = odl.IntervalProd([0] * d, [2] * d)
+        poly = [((Fr(1, 2), Fr(0)), (0,) * d)] + [((Fr(j + 1), Fr(0)), tuple(int(i == j) for i in range(d)))
+                                                  for j in range(d)]
+        f = make_callable(dict(ck='oop', d=d, dtype='float64', poly=poly_json(poly)))
+        sf = sampling_function(f, dom, out_dtype='float64')
+        inside = [tuple(Fr(k, 2) for _ in range(d)) for k in (0, 1, 4)]
+        outside = inside + [tuple(Fr(5, 2) for _ in range(d)), tuple(Fr(-1, 4) for _ in range(d))]
+        for name, pts, bc, want_ok in (('inside', inside, True, True), ('outside', outside, True, False),
+                                       ('outside-unchecked', outside, False, True)):
+            x = np.array([[float(t) for t in pt] for pt in pts]).T.reshape(d, len(pts))
+            rc = dict(kind='bounds', d=d, name=name)
+            key = 'sampling bounds_check d={} points={}'.format(d, name)
+            ctx.case(('bounds', d, name), None)
+            ctx.hit('sampling/bounds/' + name)
+            try:
+                r = sf(x, bounds_check=bc)
+                got = flat_tokens(r, 'float64')
+                if not want_ok:
+                    ctx.violation(key + ' :: points outside the domain accepted', str(got)[:200], rc)
+                elif got != [ctok(peval(poly, pt)) for pt in pts]:
+                    ctx.violation(key + ' :: values differ from the callable', str(got)[:200], rc)
+            except ValueError as e:
+                if want_ok:
+                    ctx.violation(key + ' raised', 'ValueError: ' + str(e)[:200], rc)
+            except Exception as e:  # noqa
+                ctx.violation(key + ' raised', '{}: {}'.format(type(e).__name__, str(e)[:200]), rc)
+
+
+def run_tuple_1d_plain(ctx):
+    """1d vector-valued function written in terms of `x` (not `x[0]`) with a constant
+    component: the ragged result goes through `_broadcast_nested_list`."""
+    from odl.discr.discr_utils import sampling_function, point_collocation
+    import odl
+    space = odl.uniform_discr(0, 2, 4)
+    pts = [Fr(float(t)) for t in space.grid.coord_vectors[0]]
+    exp = [[ctok((2 * t, Fr(0))) for t in pts], [ctok((Fr(3, 2), Fr(0)))] * 4,
+           [ctok((t * t - 1, Fr(0))) for t in pts]]
+    for conv in ('mesh', 'array'):
+        rc = dict(kind='tuple1d', conv=conv)
+        key = 'sampling vector-valued 1d function of plain x returning a tuple :: input=' + conv
+        ctx.case(('tuple1d', conv), None)
+        ctx.hit('sampling/tuple1d/' + conv)
+        try:
+            sf = sampling_function(lambda x: (2 * x, 1.5, x * x - 1), space.domain,
+                                   out_dtype=(float, (3,)))
+            r = point_collocation(sf, space.meshgrid) if conv == 'mesh' else \
+                sf(np.array([[float(t) for t in pts]]))
+            if np.shape(r) != (3, 4):
+                raise AssertionError('result shape {}'.format(np.shape(r)))
+            got = [flat_tokens(r[i], 'float64') for i in range(3)]
+            if got != exp:
+                ctx.violation(key + ' values differ from the callable at the grid points',
+                              'expected {} got {}'.format(exp, got)[:400], rc)
+        except Exception as e:  # noqa
+            ctx.violation(key + ' raised', '{}: {}'.format(type(e).__name__, str(e)[:200]), rc)
+
+
+def run_vector_kwargs(ctx):
+    """array of callables with a keyword parameter, out-of-place and in place"""
+    from odl.discr.discr_utils import sampling_function, point_collocation
+    import odl
+    space = odl.uniform_discr([0, 0], [2, 1], (4, 2))
+    pts = list(itertools.product(*[[Fr(float(t)) for t in c] for c in space.grid.coord_vectors]))
+
+    def g(x, out=None, c=0.0):
+        if out is None:
+            return x[0] * x[1] - c
+        out[:] = x[0] * x[1] - c
+    funcs = [lambda x, c=0.0: x[0] + c, g]
+    cval = Fr(3, 2)
+    exp = [[ctok((x + cval, Fr(0))) for x, y in pts], [ctok((x * y - cval, Fr(0))) for x, y in pts]]
+    for conv in ('mesh', 'mesh+out'):
+        rc = dict(kind='veckw', conv=conv)
+        key = 'sampling vector-valued array of callables with keyword parameter :: input=' + conv
+        ctx.case(('veckw', conv), None)
+        ctx.hit('sampling/veckw/' + conv)
+        try:
+            sf = sampling_function(funcs, space.domain)
+            if conv == 'mesh':
+                r = point_collocation(sf, space.meshgrid, c=float(cval))
+            else:
+                r = np.full((2,) + space.shape, np.nan)
+                point_collocation(sf, space.meshgrid, out=r, c=float(cval))
+            got = [flat_tokens(r[i], 'float64') for i in range(2)]
+            if got != exp:
+                ctx.violation(key + ' values differ from the callables at the grid points',
+                              'expected {} got {}'.format(exp, got)[:400], rc)
+        except Exception as e:  # noqa
+            ctx.violation(key + ' raised', '{}: {}'.format(type(e).__name__, str(e)[:200]), rc)
+
+
 def run_sampling(ctx):
+    run_bounds_check(ctx)
+    run_tuple_1d_plain(ctx)
+    run_vector_kwargs(ctx)
     for case in samp_configs(ctx):
         run_sampling_case(ctx, case)
     run_vector_valued(ctx)
@@ -1578,6 +1702,12 @@ def replay(ctx, case):
         run_dtype_table(ctx, with_model=False)
     elif kind == 'vector':
         run_vector_valued(ctx)
+    elif kind == 'bounds':
+        run_bounds_check(ctx)
+    elif kind == 'tuple1d':
+        run_tuple_1d_plain(ctx)
+    elif kind == 'veckw':
+        run_vector_kwargs(ctx)
     elif kind == 'dispatch':
         run_dispatch(ctx, with_model=False)
     elif kind == 'inputclass':
